@@ -12,6 +12,19 @@ import (
 type c07 struct {
 	q  *queue.Queue[int]
 	st *Stats
+	lg lgTrack
+}
+
+// wrapNote labels a wrap of the head or tail index by the size of the buffer it happens in, and by whether that
+// size is a power of two (a mask is a modulo only then).
+func (r *c07) wrapNote(what string, cp int) {
+	r.st.Note(what)
+	if cl := c10sizeClass(cp); cl != "" {
+		r.st.Note(what + "-cap" + cl)
+		if cp&(cp-1) != 0 {
+			r.st.Note(what + "-cap-not-pow2" + cl)
+		}
+	}
 }
 
 // obs: the result of the op, the observable state (Len, IsEmpty, Front, Slice) and — lock-step with the
@@ -19,6 +32,7 @@ type c07 struct {
 func (r *c07) obs(res string) string {
 	q := r.q
 	head, n, cp := queue.VerifState(q)
+	r.lg.see(r.st, "queue", q.Len())
 	return fmt.Sprintf("%s len=%d empty=%s front=%d slice=%s head=%d n=%d cap=%d", res, q.Len(), fmtBool(q.IsEmpty()), q.Front(), fmtInts(q.Slice()), head, n, cp)
 }
 
@@ -35,7 +49,11 @@ func (r *c07) Exec(op []string) string {
 			if n := atoi(op[2]); n >= 10 && n < 300 {
 				r.st.Note("newsize-10..299")
 			}
+			if n := atoi(op[2]); n > 2 && n&(n-1) != 0 {
+				r.st.Note("newsize-not-pow2" + c10sizeClass(n))
+			}
 		}
+		r.lg.reset()
 		return r.obs("-")
 	case "add", "push":
 		head, n, cp := queue.VerifState(r.q)
@@ -49,9 +67,9 @@ func (r *c07) Exec(op []string) string {
 				r.st.Note(op[0] + "-grow")
 			}
 		} else if op[0] == "add" && head+n >= cp {
-			r.st.Note("add-wrap")
+			r.wrapNote("add-wrap", cp)
 		} else if op[0] == "push" && head == 0 {
-			r.st.Note("push-wrap-back")
+			r.wrapNote("push-wrap-back", cp)
 		}
 		if op[0] == "add" {
 			r.q.Add(atoi(op[1]))
@@ -62,14 +80,14 @@ func (r *c07) Exec(op []string) string {
 	case "pop":
 		head, n, cp := queue.VerifState(r.q)
 		if n > 1 && head == cp-1 {
-			r.st.Note("pop-wrap")
+			r.wrapNote("pop-wrap", cp)
 		}
 		v, ok := r.q.Pop()
 		return r.obs(fmtPop(v, ok))
 	case "poplast":
 		head, n, cp := queue.VerifState(r.q)
 		if n > 0 && head+n-1 >= cp {
-			r.st.Note("poplast-wrapped")
+			r.wrapNote("poplast-wrapped", cp)
 		}
 		v, ok := r.q.PopLast()
 		return r.obs(fmtPop(v, ok))
@@ -143,10 +161,128 @@ func genC07large(g *G, next *int) {
 	}
 }
 
+// genC07drain: queues grown past a threshold (33..520, thorough 1025 and 2049), drained below a quarter of it,
+// regrown past it, cleared, regrown, emptied — Add-heavy (Add/Pop: the head moves forward) and Push-heavy
+// (Push/PopLast: the head moves backwards) and mixed, from the zero value, New and NewSize at and around powers of
+// two and at sizes that are NOT powers of two (3, 5, 6, 7, 100, 300, 848, the target itself); every step observed.
+func genC07drain(g *G, next *int) {
+	sizes := []int{33, 65, 130, 260, 520}
+	if g.Thorough() {
+		sizes = append(sizes, 40, 64, 129, 257, 513, 700, 1025, 2049)
+	}
+	starts := []int{-2, -1, 3, 5, 6, 7, 100, 300, 848, 0, 16, 64} // -2 zero value, -1 New, 0 NewSize(target)
+	off := g.Intn(len(starts))
+	for i, S := range sizes {
+		for heavy := 0; heavy < 3; heavy++ {
+			if S >= 500 && !g.Thorough() && heavy != (i+off)%3 {
+				continue // the model costs O(cap) per line: one of the three in the quick tier
+			}
+			k := starts[(i*3+heavy+off)%len(starts)]
+			var ops []string
+			switch {
+			case k == -2:
+				ops = append(ops, "reset zero")
+			case k == -1:
+				ops = append(ops, "reset new")
+			case k == 0:
+				ops = append(ops, fmt.Sprintf("reset size %d", S))
+			default:
+				ops = append(ops, fmt.Sprintf("reset size %d", k))
+			}
+			n := 0
+			grow := func(to int, mode int) {
+				for j := 0; n < to; j++ {
+					name := "add"
+					if mode == 1 || (mode == 2 && j%3 == 1) {
+						name = "push"
+					}
+					ops = append(ops, fmt.Sprintf("%s %d", name, *next))
+					*next++
+					n++
+				}
+			}
+			shrink := func(to int, mode int) {
+				for j := 0; n > to; j++ {
+					name := "pop"
+					if mode == 1 || (mode == 2 && j%3 == 1) {
+						name = "poplast"
+					}
+					ops = append(ops, name)
+					n--
+				}
+			}
+			grow(S, heavy)
+			ops = append(ops, "peek 0", "peek -1", fmt.Sprintf("peek %d", S-1), fmt.Sprintf("peek %d", S), fmt.Sprintf("peek %d", -S), "each 2")
+			shrink(S/4-1, heavy)
+			ops = append(ops, "peek 0", "peek -1", "each 2")
+			grow(S+3, (heavy+1)%3) // the other end
+			ops = append(ops, fmt.Sprintf("peek %d", S+2), "peek -1")
+			shrink(S/2, (heavy+2)%3)
+			ops = append(ops, "clear", "pop", "poplast")
+			n = 0
+			grow(20, heavy)
+			shrink(0, (heavy+1)%3)
+			ops = append(ops, "pop", "poplast", "peek 0")
+			g.Each(ops)
+		}
+	}
+}
+
+// genC07sparse: a LARGE buffer holding FEW elements (NewSize(k), k = 3, 5, 6, 7, 100, 300, 848, 1025, 4097 and the
+// powers of two next to them): the head is walked forward twice around the buffer by Pop+Add pairs and backward by
+// PopLast+Push pairs, so that every wrap test is taken at every index of a buffer whose length is not a power of
+// two — at the cost of a few elements per observation.
+func genC07sparse(g *G, next *int) {
+	// (the model costs O(cap) per line, a lap O(cap²): 1025 gets one forward lap in the quick tier, 4097 is thorough)
+	ks := []int{3, 5, 6, 7, 100, 300, 848, 1025, 64, 128}
+	if g.Thorough() {
+		ks = append(ks, 33, 65, 257, 513, 1024, 2049, 4096, 4097, 5000)
+	}
+	for _, k := range ks {
+		laps := 2 * k
+		back := k
+		if k > 1000 && !g.Thorough() {
+			laps, back = k, k/8
+		}
+		ops := []string{fmt.Sprintf("reset size %d", k)}
+		fill := min(k, 3+g.Intn(20))
+		for j := 0; j < fill; j++ {
+			ops = append(ops, fmt.Sprintf("add %d", *next))
+			*next++
+		}
+		for j := 0; j < laps+5; j++ {
+			ops = append(ops, "pop", fmt.Sprintf("add %d", *next))
+			*next++
+			if j%97 == 0 {
+				ops = append(ops, "peek -1", fmt.Sprintf("peek %d", fill-1), "each 1")
+			}
+		}
+		for j := 0; j < back+5; j++ {
+			ops = append(ops, "poplast", fmt.Sprintf("push %d", *next))
+			*next++
+			if j%97 == 0 {
+				ops = append(ops, "peek 0", fmt.Sprintf("peek %d", -fill))
+			}
+		}
+		// fill it exactly, wrapped, then one more from either end (the grow path from a rotated full buffer)
+		if k <= 900 || g.Thorough() && k <= 2100 {
+			for j := fill; j < k; j++ {
+				ops = append(ops, fmt.Sprintf("add %d", *next))
+				*next++
+			}
+			ops = append(ops, g.Pick("push", "add")+fmt.Sprintf(" %d", *next), "peek -1", "peek 0", "pop", "poplast")
+			*next++
+		}
+		g.Each(ops)
+	}
+}
+
 func genC07(g *G) {
 	cases := g.Scale(600, 20000)
 	maxOps := g.Scale(120, 600)
 	next := 1
+	genC07drain(g, &next)
+	genC07sparse(g, &next)
 	genC07large(g, &next)
 	for c := 0; c < cases; c++ {
 		var ops []string
